@@ -1,0 +1,29 @@
+//go:build verif
+
+// Contracts for the deductive verifier in /verif (comment-only file; see /verif/DESIGN.md).
+package offsetcommit
+
+//@ property C04 C03
+
+// Wire layout per version, from the Kafka protocol definition of this API (field order, types and the versions each field
+// exists in); the encoders and decoders are compiled from the struct tags, so the tags are checked against it.
+//@ wire Request
+//@   layout v0 GroupID string, Topics []RequestTopic
+//@   layout v1 GroupID string, GenerationID int32, MemberID string, Topics []RequestTopic
+//@   layout v2..v4 GroupID string, GenerationID int32, MemberID string, RetentionTimeMs int64, Topics []RequestTopic
+//@   layout v5..v6 GroupID string, GenerationID int32, MemberID string, Topics []RequestTopic
+//@   layout v7 GroupID string, GenerationID int32, MemberID string, GroupInstanceID string?, Topics []RequestTopic
+//@ wire RequestTopic
+//@   layout v0..v7 Name string, Partitions []RequestPartition
+//@ wire RequestPartition
+//@   layout v0 PartitionIndex int32, CommittedOffset int64, CommittedMetadata string?
+//@   layout v1 PartitionIndex int32, CommittedOffset int64, CommitTimestamp int64, CommittedMetadata string?
+//@   layout v2..v5 PartitionIndex int32, CommittedOffset int64, CommittedMetadata string?
+//@   layout v6..v7 PartitionIndex int32, CommittedOffset int64, CommittedLeaderEpoch int32, CommittedMetadata string?
+//@ wire Response
+//@   layout v0..v2 Topics []ResponseTopic
+//@   layout v3..v7 ThrottleTimeMs int32, Topics []ResponseTopic
+//@ wire ResponseTopic
+//@   layout v0..v7 Name string, Partitions []ResponsePartition
+//@ wire ResponsePartition
+//@   layout v0..v7 PartitionIndex int32, ErrorCode int16
